@@ -2,6 +2,7 @@
 package props
 
 import (
+	"bytes"
 	"fmt"
 
 	"github.com/pion/rtp"
@@ -26,8 +27,8 @@ func init() {
 			"equality treats nil and empty slices alike and ignores ExtensionProfile when Extension is false",
 		},
 		Strata: []fw.Stratum{
-			{Name: "packet-roundtrip", N: fw.Const(400000, 8000000), Run: c01Packet},
-			{Name: "header-roundtrip", N: fw.Const(200000, 4000000), Run: c01Header},
+			{Name: "packet-roundtrip", N: fw.Const(2000000, 16000000), Run: c01Packet},
+			{Name: "header-roundtrip", N: fw.Const(1000000, 8000000), Run: c01Header},
 		},
 	})
 }
@@ -138,6 +139,15 @@ func c01Packet(c *fw.Ctx, i int) {
 	}
 	if back.Padding != (p.PadSize > 0) {
 		c.Fail(c01Sig("roundtrip", p, "padding-flag"), "decoded padding flag differs", wit("wire", fw.Hex(wire)))
+		return
+	}
+	// Marshal is a query: the packet it encoded is still the packet that was built, and encodes to the same bytes again
+	if d := ref.Equal(p, gen.FromLib(pk)); d != "" {
+		c.Fail(c01Sig("marshal", p, "changes-the-packet-in-"+d), "after Marshal the packet differs from the one that was built in "+d, wit("wire", fw.Hex(wire)))
+		return
+	}
+	if again, err := pk.Marshal(); err != nil || !bytes.Equal(again, wire) {
+		c.Fail(c01Sig("marshal", p, "second-marshal-differs"), fmt.Sprintf("marshalling the same packet again gives other bytes (err %v)", err), wit("wire", fw.Hex(wire), "again", fw.Hex(again)))
 		return
 	}
 	c.Count("roundtrips_equal", 1)
